@@ -63,6 +63,7 @@ def run(check, prog):
     c08.interpolation_windows(check, prog)
     # the seed given to a strategy reaches the subset draw (rule shared with C13)
     c13.wiring(check, prog)
+    c13.seeded_subset(check, prog)
     point_independence(check, prog)
     # where a pixel sits: make_coords / data_grid put pixel (i, j) at
     # (i * spacing_x, j * spacing_y) for scalar and per-axis spacings, which the
@@ -401,14 +402,36 @@ def coordinates(check, prog):
                 'np.full(d.theta.values.shape, np.inf)'
             want = [expr_term(prog, s, env) for s in (r, 'd.theta.values', 'd.phi.values')]
             names = ['r', 'theta', 'phi']
+        def plain(t):
+            # value-preserving conversions: np.asarray(x[, dtype=float]), np.array(x)
+            if not isinstance(t, tuple) or not t or not isinstance(t[0], str):
+                return tuple(plain(x) if isinstance(x, tuple) else x for x in t) \
+                    if isinstance(t, tuple) else t
+            if t[0] == 'call' and t[1] in ('numpy.asarray', 'numpy.array',
+                                           'numpy.asfarray') and len(t[2]) == 1:
+                return plain(t[2][0])
+            return tuple(plain(x) if isinstance(x, tuple) else x for x in t)
         for nm, g, w in zip(names, got, want):
             c0 = Canon()
+            g = intern(plain(g))
             check.require(c0.equal(g, w), 'D3-coordinate-path',
                           'hand-off [%s] %s' % (kind, nm),
                           'every detector point contributes its own %s' % nm, loc,
                           fail_detail='%s coordinate handed to the theory is %s; the '
                           'position-only form is %s' % (nm, c0.show(g)[:160],
                                                         c0.show(w)[:160]))
+        # ... and reading the coordinates leaves the detector as it was: a member
+        # of a superposition is evaluated on the same schema as the one before it
+        badw = [e for e, st, rs in writes(it) if
+                (('param', 'detector') in rs or ('param', 'origin') in rs) and
+                ('fresh',) not in rs]
+        check.require(not badw, 'D3-handoff-does-not-modify', 'hand-off [%s]' % kind,
+                      'the coordinates are read, not rescaled in place', loc,
+                      fail_detail='stores into the detector: %s -- the next member of '
+                      'a superposition (or the next call) sees coordinates already '
+                      'multiplied by the wavevector' % [
+                          (e.get('target_src') or e.get('method'), e['lineno'])
+                          for e in badw][:2])
         # the transformation is chosen from the coordinate systems only
         f = v[1]
         ok = f[0] == 'call' and f[1] == 'holopy.core.math.find_transformation_function' \
